@@ -484,6 +484,10 @@ theorem bel_step {s : State} (hI : Inv s) {B : Conn → Name → Bool} (hB : Bel
       intro d m b; cases s.queue n <;> rfl
     simp only [this]
     exact hB
+  | other c =>
+    simp only [step] at h
+    cases h
+    exact hB
 
 /-- Beliefs after a whole history, starting from "nobody believes anything". -/
 def beliefs : List (List Event) → Conn → Name → Bool
